@@ -39,7 +39,7 @@ tvars == <<tid, pos, arr, grids, last, depth>>
 Range(s) == { s[i] : i \in 1..Len(s) }
 \* kinds in order, with the lengths of the non-grid dims (a grid dim's length is GridDimsConsistent's business)
 KN(ds)   == [i \in 1..Len(ds) |-> <<ds[i].k, IF ds[i].k \in GridKinds THEN 0 ELSE ds[i].n>>]
-LOp(ln)  == OpM(ln.op, ln.d, Range(ln.m))
+LOp(ln)  == OpX(ln.op, ln.d, Range(ln.m), ln.ix)
 NameOf(x) == IF x \in {"v", "w", "none"} THEN x ELSE "free"
 
 \* the logged result as an abstract array (bookkeeping fields taken from the expectation e)
@@ -50,18 +50,18 @@ Logged(ln, a, e) ==
                    IF HasKind(e, ln.dims[i].k) THEN e.dims[PosOf(e, ln.dims[i].k)].idx ELSE "none")],
    name |-> NameOf(ln.name), dt |-> e.dt,
    \* (a result whose length differs from its grid's count is GridDimsConsistent's business, not an order question)
-   al |-> IF B(ln.op) \in SelectOps /\ Len(ln.src) = Len(ln.sel) THEN a.al /\ ln.src = ln.sel ELSE a.al]
+   al |-> IF BN(LOp(ln)) \in SelectOps /\ Len(ln.src) = Len(ln.sel) THEN a.al /\ ln.src = ln.sel ELSE a.al]
 
-Ended(ln, o, a) == \/ ln.out = "xr_refused" /\ B(o.op) \notin OwnOps
+Ended(ln, o, a) == \/ ln.out = "xr_refused" /\ (BN(o) \notin OwnOps \/ o.op \in GselOps)
                    \/ ln.out = "refused" /\ IsFree(o, a)
 
 (* ---- the clauses of one step -------------------------------------------- *)
 \* (operator arguments are evaluated once by TLC, LET definitions at every use: hence the two levels)
 ClausesOf(ln, a, G, o, free, e, L, val, mixed) ==
-  [ Raises   |-> ln.out # "raised" /\ (ln.out = "refused" => free) /\ (ln.out = "xr_refused" => B(o.op) \notin OwnOps),
+  [ Raises   |-> ln.out # "raised" /\ (ln.out = "refused" => free) /\ (ln.out = "xr_refused" => (BN(o) \notin OwnOps \/ o.op \in GselOps)),
     IsUx     |-> val => IsUxArr(L),
     SameGrid |-> (val /\ IsUxArr(L)) => IF free THEN L.grid \in {a.grid, NewHandle(G)} ELSE L.grid = e.grid,
-    DimsEffect |-> val => IF B(o.op) \in FreeOps
+    DimsEffect |-> val => IF BN(o) \in FreeOps
                           THEN /\ Len(L.dims) = Len(a.dims)
                                /\ \A i \in 1..Len(a.dims) : /\ L.dims[i].k = a.dims[i].k
                                                             /\ i \in LeadIdx(a) => L.dims[i].n = a.dims[i].n
@@ -72,11 +72,16 @@ ClausesOf(ln, a, G, o, free, e, L, val, mixed) ==
     DataFollowsGrid |-> (val /\ IsUxArr(L)) => L.al,
     \* a deep copy's grid: equal to the source's, another dataset object, no variable sharing memory with any
     \* variable of the source's (mem), and an in-place edit of either grid's arrays does not show in the other (leak)
-    DeepCopyIndependent |-> (val /\ B(o.op) \in CopyOps) =>
+    DeepCopyIndependent |-> (val /\ BN(o) \in CopyOps) =>
                                /\ a.grid \in Range(ln.g.eq) /\ Range(ln.g.share) = {}
                                /\ Range(ln.g.mem) = {} /\ Range(ln.g.leak) = {},
     Name     |-> (val /\ ~free) => e.name = "free" \/ NameOf(ln.name) = e.name,
     ValuesAsXarray |-> ln.val # "diff",
+    \* generic selections: what plain xarray's isel selects with the same indexer (want) is what was selected (src):
+    \* exactly on faces, at least those elements on nodes / edges (inclusive selection)
+    SelectsWhatXarraySelects |-> (val /\ o.op \in GselOps /\ ln.wantok /\ BN(o) \in SelectOps /\ IsUxArr(L) /\ HasGridDim(a)) =>
+                                   IF Centred(a) = "n_face" THEN ln.src = ln.want
+                                   ELSE Range(ln.want) \subseteq Range(ln.src),
     \* ---- mixed-location datasets: every companion variable of the result (ln.comp) ----
     MixedIsUx       |-> mixed => \A i \in 1..Len(ln.comp) : ln.comp[i].cls = "Ux",
     MixedSameGrid   |-> mixed => \A i \in 1..Len(ln.comp) : ln.comp[i].cls = "Ux" => ln.comp[i].grid = ln.grid,
